@@ -101,6 +101,12 @@ Definition diagnose (c : ctx_table) : list (name * string * name) :=
        (ok_register c) (ct_registers c) ++
   diag c "general_purpose_registers() is not this type's REGISTERS"%string
        (fun _ => strs_eqb (ct_gpr c) (ct_registers c)) [ct_variant c] ++
+  diag c "register_is_valid under validity All is not exactly memoize_register(reg).is_some()"%string
+       (fun _ => plain_bvar (ct_valid_all c) v_memo) [ct_name c] ++
+  diag c "register_is_valid under Some(which), for a name without an arm of its own, is not exactly which.contains(reg)"%string
+       (fun _ => plain_bvar (ct_valid_default c) v_contains) [ct_name c] ++
+  diag c "get_register does not read exactly when register_is_valid(reg, valid) holds"%string
+       (fun _ => plain_bvar (ct_get_cond c) v_iv) [ct_name c] ++
   diag c "MinidumpContext::get_register_always does not forward this type's get_register_always unchanged"%string
        (fun _ => plain_var (ct_md_get c) v_ga) [ct_variant c] ++
   diag c "MinidumpContext::get_register does not test exactly this type's register_is_valid(reg, &self.valid)"%string
